@@ -57,4 +57,8 @@ CONTROLS = [
          expect=r"only-the-selected-slot/"),
     dict(name="BENIGN: the replacement node is built before the store", benign=True,
          edits=[("cdd/shared/ast_utils.py", "                        arg_l[idx] = emit_arg(self.replacement_node)\n", "                        new_arg = emit_arg(self.replacement_node)\n                        arg_l[idx] = new_arg\n")]),
+    dict(name="--input-eval executes the input module only up to the last plain assignment of the name (seed C13_j shape: `NAME += ...` afterwards is not seen)",
+         edits=[("cdd/compound/sync_properties.py", "        local = {}\n        output = eval(compile(input_ast, filename=input_filename, mode=\"exec\"), local)\n",
+                 "        last_definition = max((idx for idx, stmt in enumerate(input_ast.body) if getattr(stmt, \"_location\", None) == [input_param]), default=len(input_ast.body) - 1)\n        to_run = ast.Module(body=input_ast.body[: last_definition + 1], type_ignores=[])\n        local = {}\n        output = eval(compile(to_run, filename=input_filename, mode=\"exec\"), local)\n")],
+         expect=r"sync_property/input-eval-runs-the-whole-input-module"),
 ]
